@@ -1,9 +1,31 @@
 package main
 
 import (
+	_ "embed"
+	"encoding/json"
 	"fmt"
 	"strings"
 )
+
+// pinned expectations: which field sizes which buffer / counts which list, per command
+// (twin of lean/Manticore/Spec/SmbRelations.lean; NOT regenerated from the code under test)
+//
+//go:embed smb_relations.json
+var smbRelationsJSON []byte
+
+var smbRelations map[string]map[string]*gExpr
+
+func pinnedRel(cmd, field string, dflt *gExpr) *gExpr {
+	if smbRelations == nil {
+		if err := json.Unmarshal(smbRelationsJSON, &smbRelations); err != nil {
+			panic("harness: smb_relations.json: " + err.Error())
+		}
+	}
+	if e, ok := smbRelations[cmd][field]; ok {
+		return e
+	}
+	return dflt
+}
 
 // evalG evaluates an IR expression over the generated field values
 func evalG(e *gExpr, ints map[string]uint64, lens map[string]int, pad int) int {
@@ -62,6 +84,9 @@ func genEnv(r *Rng, g *gCmd, consistent bool, distinct bool, small bool) string 
 		for _, s := range ss {
 			switch s.Op {
 			case "readBytes":
+				if consistent {
+					s.E = pinnedRel(g.Name, s.F, s.E) // size the buffer by the documented field, whatever the decoder does
+				}
 				if s.E.K == "fint" && consistent {
 					g0 := s.E.F
 					if !fixed[g0] {
@@ -87,6 +112,9 @@ func genEnv(r *Rng, g *gCmd, consistent bool, distinct bool, small bool) string 
 				}
 			case "forCountInt", "forCountSub":
 				if consistent {
+					if e := pinnedRel(g.Name, s.F, nil); e != nil && e.K == "fint" {
+						s.G = e.F
+					}
 					if !fixed[s.G] {
 						ints[s.G] = uint64(pick(5) % 6)
 						fixed[s.G] = true
@@ -119,8 +147,18 @@ func genEnv(r *Rng, g *gCmd, consistent bool, distinct bool, small bool) string 
 			}
 			var b []byte
 			if isCstr(g, f.Name) {
-				for i := 0; i < n/2; i++ {
-					b = append(b, byte(0x41+r.Intn(26)), byte(r.Intn(2)))
+				for i := 0; i < n/2; i++ { // UTF-16 units other than 0x0000, often with one zero byte
+					lo, hi := byte(0x41+r.Intn(26)), byte(r.Intn(2))
+					switch r.Intn(4) {
+					case 0:
+						lo, hi = 0, byte(1+r.Intn(255))
+					case 1:
+						lo, hi = r.Byte(), r.Byte()
+						if lo == 0 && hi == 0 {
+							lo = 1
+						}
+					}
+					b = append(b, lo, hi)
 				}
 			} else {
 				b = r.Bytes(n)
